@@ -2,6 +2,7 @@ package ag
 
 import (
 	"bufio"
+	"encoding/base64"
 	"encoding/json"
 	"fmt"
 	"net/http"
@@ -26,6 +27,11 @@ type RLine struct {
 	Age2   int         `json:"age2"`
 	Acted2 bool        `json:"acted2"`
 	Conc   interface{} `json:"conc,omitempty"`
+	// walk: /callback with a state whose sign-in URL names a nested redirect signed as `nested` says, then the
+	// browser follows wherever it is sent (at most three hops, keeping the cookies it is given)
+	Nested string `json:"nested,omitempty"` // valid | badsig | stale | foreign | nosig
+	Acted  bool   `json:"acted"`            // some hop attached an authorization code to the nested redirect
+	Hops   int    `json:"hops"`
 }
 
 // RunReplay runs the probes (one per gated endpoint, in parallel: the wait is real time).
@@ -97,6 +103,69 @@ func RunReplay(out string, seed int64) (*Summary, error) {
 		}(i, p)
 	}
 	wg.Wait()
+	// walks: what the browser brings back in `state` is the browser's to choose; the code may be attached only to a
+	// redirect the proxy signed, freshly - also two hops after the callback
+	for i, nested := range []string{"valid", "badsig", "stale", "foreign", "nosig", "valid"} {
+		now := time.Now()
+		ts := now.Unix() - 5
+		sig := world.Sign(a.Opts.ProxySecret, back, ts)
+		switch nested {
+		case "badsig":
+			sig = world.Sign(a.Opts.ProxySecret, back+"x", ts)
+		case "stale":
+			ts = now.Unix() - 900 - seed%7
+			sig = world.Sign(a.Opts.ProxySecret, back, ts)
+		case "foreign":
+			sig = world.Sign("not-the-proxy-secret", back, ts)
+		}
+		q := url.Values{"client_id": {a.Opts.ProxyID}, "redirect_uri": {back}, "state": {"st"}, "ts": {fmt.Sprint(ts)}, "sig": {sig}}
+		if nested == "nosig" {
+			q.Set("sig", "AAAA")
+			q.Del("ts")
+			q.Set("ts", "0")
+		}
+		signIn := "http://" + a.Opts.Host + a.Path("sign_in") + "?" + q.Encode()
+		nonce := fmt.Sprintf("%032x", now.UnixNano())
+		code := fmt.Sprintf("walkcode-%d-%d", now.UnixNano(), i)
+		idp.Grant(code, "walker@allowed.test", true, []string{"g"})
+		state := base64.URLEncoding.EncodeToString([]byte(nonce + ":" + signIn))
+		jar := map[string]string{a.CSRFName: nonce}
+		target := a.Path("callback") + "?" + url.Values{"code": {code}, "state": {state}}.Encode()
+		ln := RLine{Ev: "walk", Case: 97000100 + i, Ep: "callback", Nested: nested}
+		var trail []string
+		for ln.Hops = 0; ln.Hops < 3; ln.Hops++ {
+			var cs []*http.Cookie
+			for k, v := range jar {
+				cs = append(cs, &http.Cookie{Name: k, Value: v})
+			}
+			r := world.Do(a.Handler, world.NewReq("GET", a.Opts.Host, target, nil, cs, ""))
+			for _, name := range []string{a.CookieName, a.CSRFName} {
+				if v, touched := r.CookieAfter(name, jar[name]); touched {
+					if v == "" {
+						delete(jar, name)
+					} else {
+						jar[name] = v
+					}
+				}
+			}
+			loc := r.Header.Get("Location")
+			trail = append(trail, fmt.Sprintf("GET %.300s -> %d %.300s", target, r.Status, loc))
+			u, err := url.Parse(loc)
+			if r.Status/100 != 3 || err != nil {
+				break
+			}
+			if strings.EqualFold(u.Host, "app.root.test") {
+				ln.Acted = u.Query().Get("code") != ""
+				break
+			}
+			if !strings.EqualFold(u.Host, a.Opts.Host) {
+				break
+			}
+			target = u.RequestURI()
+		}
+		ln.Conc = map[string]interface{}{"state_carries": signIn, "trail": trail}
+		lines = append(lines, ln)
+	}
 	f, err := os.Create(out)
 	if err != nil {
 		return nil, err
